@@ -16,7 +16,7 @@ from typing import Any, Optional
 from collections.abc import Callable, Iterable, Iterator
 from elementpath.protocols import ElementProtocol
 from elementpath.exceptions import xpath_error
-from elementpath.datatypes import UntypedAtomic, AnyURI, AbstractQName
+from elementpath.datatypes import UntypedAtomic, AnyURI, AbstractQName, AbstractBinary
 from elementpath.collations import UNICODE_CODEPOINT_COLLATION, CollationManager
 from elementpath.xpath_nodes import XPathNode, EtreeElementNode, TextAttributeNode, \
     NamespaceNode, TextNode, CommentNode, ProcessingInstructionNode, EtreeDocumentNode
@@ -396,6 +396,9 @@ def same_key(k1: Any, k2: Any) -> bool:
         return isinstance(k2, float) and math.isnan(k2)
     elif isinstance(k1, AbstractQName) ^ isinstance(k2, AbstractQName):
         return False
+    elif isinstance(k1, AbstractBinary) and isinstance(k2, AbstractBinary) \
+            and type(k1) is not type(k2):
+        return False  # xs:hexBinary and xs:base64Binary values are never deep-equal
 
     try:
         return True if k1 == k2 else False
